@@ -22,7 +22,7 @@ sys.path.insert(0, os.path.dirname(os.path.abspath(__file__)))
 import vxbuild  # noqa: E402
 from vxbuild import VERIF, REPO, LostAnchor  # noqa: E402
 
-BUILD = os.path.join(VERIF, "build")
+BUILD = os.environ.get("VERIF_BUILD_DIR") or os.path.join(VERIF, "build")
 VERUS = os.environ.get("VERUS", "verus")
 RLIMIT = os.environ.get("VERIF_RLIMIT", "60")
 
@@ -327,6 +327,9 @@ def main():
             undecided.append((n, "vacuous proof: `ensures false` canary verified for %s" % r.canary_bad, ""))
         default_prop = "C10" if "C10" in idx[n]["serves"] else (idx[n]["serves"][0] if idx[n]["serves"] else prop)
         for fl in r.failures:
+            if (fl.get("label") or "").startswith("UNDECIDED."):
+                undecided.append((n, "an obligation that belongs to no property could not be discharged (%s) in %s" % (fl["label"], fl.get("function")), fl.get("rendered", "")))
+                continue
             props = label_props(fl["label"])
             if not props:
                 # an obligation without a label of its own (overflow, termination, an unlabelled
